@@ -26,10 +26,10 @@ PROP = "C08"
 LEVEL = "proof"
 ASSUMPTIONS = [
     "numpy SeedSequence.spawn / default_rng and multiprocessing.Pool are trusted (pickling gives every task a copy of the parent's state; the theorem covers arbitrary starting states of workers)",
-    "line orientation (fbus/tbus and the buses' from/to lists, re-derived by every load flow) is not part of the compared reset state; its irrelevance for the results is covered by the byte-identity of the result files in (b) and by C15",
+    "line orientation (fbus/tbus, the flag direction_changed and the buses' from/to lists, re-derived by every load flow and restored to the as-built orientation by create_sections) is not part of the compared reset state; its irrelevance for the results is covered by the byte-identity of the result files in (b) - which include a second Monte Carlo run on the same Simulation object -, by C15 and by the re-preparation class of C20",
 ]
 F = Fraction
-ORIENTATION = {"fromline", "fromline_list", "toline", "toline_list", "nextbus", "fbus", "tbus", "repair_time_dist"}
+ORIENTATION = {"fromline", "fromline_list", "toline", "toline_list", "nextbus", "fbus", "tbus", "direction_changed", "repair_time_dist"}
 
 
 def fresh(spec, n_inc, seed=0):
@@ -95,6 +95,11 @@ def mc_run(case, mode, tag):
     with contextlib.redirect_stdout(io.StringIO()):
         if mode == "debug":
             sim.run_monte_carlo(debug=True, **kw)
+        elif mode == "debug-twice":
+            # the whole Monte Carlo run a second time on the same Simulation object (the first one usually ends mid-outage): the
+            # second run's results are the ones kept
+            sim.run_monte_carlo(debug=True, **dict(kw, save_dir=acct.tmpdir(f"c08_{tag}_first")))
+            sim.run_monte_carlo(debug=True, **kw)
         else:
             sim.run_monte_carlo(n_procs=mode, **kw)
     return tree_digest(d)
@@ -103,7 +108,7 @@ def mc_run(case, mode, tag):
 def mc_case(case):
     viols = []
     ref = mc_run(case, "debug", "debug")
-    runs = {"debug-again-fresh": mc_run(case, "debug", "debug2")}
+    runs = {"debug-again-fresh": mc_run(case, "debug", "debug2"), "a second run on the same Simulation object": mc_run(case, "debug-twice", "debug3")}
     for n in case["procs"]:
         runs[f"n_procs={n}"] = mc_run(case, n, f"p{n}")
     nfiles = len(ref)
